@@ -103,10 +103,10 @@ class PCA(Transformer):
 
         if self.use_pca:
             # In case of "all" modes to the rank of the input data
-            self.n_modes = self._get_n_modes(X)
+            n_modes = self._get_n_modes(X)
 
             svd = SVD(
-                n_modes=self.n_modes,
+                n_modes=n_modes,
                 init_rank_reduction=self.init_rank_reduction,
                 compute=self.compute_eagerly,
                 random_state=self.random_state,
